@@ -113,7 +113,7 @@ def _rename(m):
 
 class Term(object):
     """finite sum of monomials, optionally wrapped in opaque unary functions (sqrt, abs)"""
-    __slots__ = ('monos', 'wrap')
+    __slots__ = ('monos', 'wrap', '_plain_cache')
 
     def __init__(self, monos, wrap=()):
         self.monos = list(monos)
@@ -153,7 +153,15 @@ class Term(object):
         """a wrapped term (sqrt/abs of a sum) used in further arithmetic is abstracted by a fresh constant (sound, loses information)"""
         if not self.wrap:
             return self
-        return Term([Mono((), fresh_real('opq'))])
+        # the SAME wrapped term object is always abstracted by the same constant
+        c = getattr(self, '_plain_cache', None)
+        if c is None:
+            c = Term([Mono((), fresh_real('opq'))])
+            try:
+                self._plain_cache = c
+            except AttributeError:
+                pass
+        return c
 
     def _collapse(self):
         """merge all variable-free monomials into one"""
